@@ -29,6 +29,7 @@ type cbScenario struct {
 	Audience string // entity registered for S.AppID
 	Canary   string
 	Exp      time.Duration
+	EntityID string // entity ID configured through the metadata endpoint's URL ("" = derived from the issuer)
 }
 
 // timeLayouts are the WithCustomTimeFormat variants ("" = default).
@@ -125,6 +126,9 @@ func (sc *cbScenario) install(w *sim.World) {
 
 // entityID is the IdP entity ID for this scenario.
 func (sc *cbScenario) entityID() string {
+	if sc.EntityID != "" {
+		return sc.EntityID
+	}
 	if sc.Host == "" {
 		return idpEntityID
 	}
